@@ -18,8 +18,18 @@ import (
 )
 
 type Cache struct {
-	cache []*HandshakeCacheItem
-	mu    sync.Mutex
+	cache   []*HandshakeCacheItem
+	repeats int
+	mu      sync.Mutex
+}
+
+// Repeats counts the pushes that found their message already cached, i.e.
+// the retransmitted messages seen so far.
+func (h *Cache) Repeats() int {
+	h.mu.Lock()
+	defer h.mu.Unlock()
+
+	return h.repeats
 }
 
 type handshakeCacheDecodeKind uint8
@@ -51,6 +61,8 @@ func (h *Cache) Push(data []byte, epoch, messageSequence uint16, typ handshake.T
 		// without bound.
 		if item.MessageSequence == messageSequence && item.Epoch == epoch && item.Typ == typ &&
 			item.IsClient == isClient && bytes.Equal(item.Data, data) {
+			h.repeats++
+
 			return
 		}
 	}
